@@ -64,6 +64,8 @@ def _index_loop(L, size_of):
     if match(size, init) and match(["b", ">", v, ["int", 0]], c) and not is_expr(inc) and body and body[0].get("k") == "expr" and \
             match(["u", "--", v], body[0].get("e")) and len(muts) == 1 and not jumps:
         return "desc"
+    if match(size, init) and match(["b", ">", ["u", "post--", v], ["int", 0]], c) and not is_expr(inc) and len(muts) == 0 and not jumps:
+        return "desc"      # for (j = n; j-- > 0;): the only write of j is the post-decrement in the condition (all_exprs of the body does not see it)
     if match(["b", "-", size, ["int", 1]], init) and up:
         return "other"
     if match(["int", 0], init) and down:
@@ -76,6 +78,77 @@ def _need_loop(L, size_of, what):
     if k is None:
         raise AnalysisBroken("loop shape not recognised: %s (line %s)" % (what, L.get("l")))
     return k
+
+
+def _counter_direction(T, J, c, size_ofs, use_stmt_line, use_expr):
+    """How a separately maintained position counter `c` walks relative to a range-for J: 'asc' (starts at 0, advanced by one per iteration
+    after its use), 'desc' (starts at size(), decremented by one before its use), or None (cannot tell)."""
+    d = [st for st in stmts(T["b"]) if st.get("k") == "decl" and st.get("n") == c]
+    if len(d) != 1 or d[0]["l"] >= J.get("l"):
+        return None
+    init = d[0].get("i")
+    body = J["b"].get("s", []) if J["b"].get("k") == "seq" else [J["b"]]
+    muts = [(st_, x) for st_, e in all_exprs(T.get("b")) for x in subexprs(e)
+            if ((x[0] == "b" and x[1] in ASSIGN_OPS) or (x[0] == "u" and x[1] in ("++", "--", "post++", "post--"))) and match(["local", c], x[2])]
+    if len(muts) != 1 or muts[0][1][0] != "u":
+        return None
+    mst, m = muts[0]
+    lo, hi = _loop_lines(J)
+    if not (lo <= (mst.get("l") or 0) <= hi) or has_break(J["b"]) or [x for x in stmts(J["b"]) if x.get("k") == "continue"]:
+        return None
+    in_use = m is use_expr or any(x is m for x in subexprs(use_expr))
+    top = any(mst is x for x in body)
+    start0 = match(["int", 0], init)
+    startn = any(match(["mcall", "std::vector::size", so], init) for so in size_ofs)
+    if start0 and m[1] == "post++" and in_use:
+        return "asc"                                         # vin[c++]
+    if start0 and m[1] in ("++", "post++") and not in_use and top and (mst.get("l") or 0) > use_stmt_line:
+        return "asc"                                         # use vin[c]; ...; ++c;
+    if startn and m[1] == "--" and in_use:
+        return "desc"                                        # vin[--c]
+    if startn and m[1] in ("--", "post--") and not in_use and top and (mst.get("l") or 0) < use_stmt_line:
+        return "desc"                                        # --c; use vin[c]
+    return None
+
+
+def _pairing(f, T, J, undo_arg, out_arg, vin, vprev, decls, ap):
+    """Decide whether the undo record and the outpoint handed to ApplyTxInUndo belong to the same input position.
+    Returns (ok, detail); raises AnalysisBroken only if the direction of a traversal cannot be determined."""
+    m = is_expr(out_arg) and out_arg[0] == "." and out_arg[2] == "CTxIn::prevout"
+    out_elem = out_arg[1] if m else None
+    if J["k"] == "for":
+        kinds = [k for k in (_index_loop(J, vin), _index_loop(J, vprev)) if k]
+        if not kinds or kinds[0] not in ("asc", "desc"):
+            raise AnalysisBroken("DisconnectBlock: direction of the input-restore index loop not recognised (line %s)" % J.get("l"))
+        j = J["init"]["n"]
+        ok = match(["idx", vprev, ["local", j]], undo_arg) and out_elem is not None and match(["idx", vin, ["local", j]], out_elem)
+        rets_only = not has_break(J["b"]) and not [x for x in stmts(J["b"]) if x.get("k") == "continue"]
+        return ok, {"traversal": "index loop (%s), both sides indexed by %s" % (kinds[0], j), "complete": rets_only}
+    if J["k"] == "foreach":
+        lv = ["local", J["var"]["n"]]
+        rng = J.get("range")
+        complete = not has_break(J["b"]) and not [x for x in stmts(J["b"]) if x.get("k") == "continue"]
+        if match(vprev, rng) and undo_arg == lv:
+            other, other_vec, what = out_elem, vin, "vin"
+        elif match(vin, rng) and out_elem == lv:
+            other, other_vec, what = undo_arg, vprev, "vprevout"
+        else:
+            raise AnalysisBroken("DisconnectBlock: range-for input-restore loop over an unrecognised range (line %s)" % J.get("l"))
+        if not (is_expr(other) and other[0] == "idx" and match(other_vec, other[1])):
+            return False, {"traversal": "range-for (ascending) on one side, %s not indexed on the other" % what, "complete": complete}
+        ix = other[2]
+        c = ix[1] if ix[0] == "local" else (ix[2][1] if ix[0] == "u" and is_expr(ix[2]) and ix[2][0] == "local" else None)
+        if c is None:
+            raise AnalysisBroken("DisconnectBlock: position expression %s not recognised" % show(ix))
+        use_line = ap.line
+        for st in stmts(J["b"]):
+            if any(x is other for _, e in all_exprs(st) for x in subexprs(e)) and st.get("k") in ("decl", "expr"):
+                use_line = st.get("l")
+        d = _counter_direction(T, J, c, [vin, vprev], use_line, ix)
+        if d is None:
+            raise AnalysisBroken("DisconnectBlock: direction of the position counter %s cannot be determined (line %s)" % (c, J.get("l")))
+        return d == "asc", {"traversal": "range-for (ascending) paired with counter %s walking %s over %s" % (c, "ascending" if d == "asc" else "DESCENDING", what), "complete": complete}
+    raise AnalysisBroken("DisconnectBlock: input-restore loop kind %s not recognised" % J["k"])
 
 
 def update_coins(ctx, P):
@@ -234,10 +307,15 @@ def disconnect_block(ctx, P):
     fors = [st for st in stmts(f.body) if st.get("k") == "for"]
     enclosing = lambda s: sorted([st for st in fors if _loop_lines(st)[0] <= s.line <= _loop_lines(st)[1]], key=lambda st: st.get("l"))
     le = enclosing(ap[0])
-    if len(le) != 2:
-        raise AnalysisBroken("DisconnectBlock: loop nest not recognised")
-    T, J = le
-    ti, ji = T["init"]["n"], J["init"]["n"]
+    if not le:
+        raise AnalysisBroken("DisconnectBlock: transaction loop not recognised")
+    T = le[0]
+    inner = sorted([st for st in stmts(T["b"]) if st.get("k") in ("for", "foreach", "while", "do") and _loop_lines(st)[0] <= ap[0].line <= _loop_lines(st)[1]],
+                   key=lambda st: st.get("l"))
+    if len(inner) != 1:
+        raise AnalysisBroken("DisconnectBlock: input-restore loop not recognised")
+    J = inner[0]
+    ti = T["init"]["n"]
     vtx = [".", ["param", "block"], "CBlock::vtx"]
     ok = _need_loop(T, vtx, "DisconnectBlock transaction loop") == "desc"
     ctx.ob("DisconnectBlock/tx-loop-reverse", "SYMMETRY", "DisconnectBlock undoes the transactions in reverse block order (i = vtx.size()-1 down to 0)", bool(ok), "%s:%s" % (f.file, T.get("l")))
@@ -251,20 +329,19 @@ def disconnect_block(ctx, P):
     if not ok:
         return
     tx, un = txl[0], unl[0]
-    # input loop: j = vin.size() .. 1, pre-decrement first
     vin = [".", ["local", tx], "CTransaction::vin"]
-    ok = _need_loop(J, vin, "DisconnectBlock input loop") == "desc"
-    ctx.ob("DisconnectBlock/input-loop-reverse", "SYMMETRY", "the inputs are restored in reverse order (j = vin.size()-1 down to 0), each exactly once", bool(ok), "%s:%s" % (f.file, J.get("l")))
+    vprev = [".", ["local", un], "CTxUndo::vprevout"]
     a = call_args(ap[0].expr)
     outv = a[2]
     if outv[0] == "local":
         od_ = [st for st in stmts(J["b"]) if st.get("k") == "decl" and st.get("n") == outv[1] and is_expr(st.get("i"))]
         asg = [x for st_, e in all_exprs(J["b"]) for x in subexprs(e) if x[0] == "b" and x[1] in ASSIGN_OPS and x[2] == outv]
         outv = od_[0]["i"] if len(od_) == 1 and not asg else outv
-    ok = (match(["idx", [".", ["local", un], "CTxUndo::vprevout"], ["local", ji]], a[0]) and match(["param", "view"], a[1])
-          and match([".", ["idx", vin, ["local", ji]], "CTxIn::prevout"], outv))
-    ctx.ob("DisconnectBlock/input-correspondence", "SYMMETRY", "input vin[j] is restored from undo entry vprevout[j] at outpoint vin[j].prevout, into the view being disconnected",
-           ok, ap[0].where, {"args": [show(a[0]), show(a[1]), show(outv)]})
+    okp, how = _pairing(f, T, J, a[0], outv, vin, vprev, decls, ap[0])
+    ctx.ob("DisconnectBlock/input-loop-complete", "SYMMETRY", "every input position of the transaction is restored exactly once (complete traversal, no early continue/break)",
+           how.get("complete", False), "%s:%s" % (f.file, J.get("l")), how)
+    ctx.ob("DisconnectBlock/input-correspondence", "SYMMETRY", "ApplyTxInUndo is given the undo record vprevout[k] and the outpoint vin[k].prevout of the SAME position k, "
+           "into the view being disconnected", okp and match(["param", "view"], a[1]), ap[0].where, dict(how, args=[show(a[0]), show(a[1]), show(outv)]))
     txk, unk = re.escape(F.key(F.expand(["local", tx], sub))), re.escape(F.key(F.expand(["local", un], sub)))
     bu = re.escape(show(decls[un]["i"][1][1]))      # the CBlockUndo object (name is free)
     atoms = {"READ": re.compile(r"m_blockman\.ReadBlockUndo\(%s, \*pindex\)" % bu),
